@@ -37,7 +37,8 @@ static const char *G_UNDEF = "#JSGF V1.0; grammar u; public <s> = go <nowhere>;"
 static const char *G_UNKW = "#JSGF V1.0; grammar w; public <s> = go zzzz;";
 static const char *CMN_FIXED = "41.00,-5.29,-0.12,5.09,2.48,-4.07,-1.37,-1.78,-5.08,-2.05,-6.45,-1.42,1.17";
 
-static int16 *AUD_A, *AUD_B, *AUD_SIL;
+static int16 *AUD_A, *AUD_B, *AUD_SIL, *AUD_QA, *AUD_QB;
+#define DIGN 16384
 static float32 *AUD_AF;
 static size_t N_A, N_B, N_SIL, N_P;
 static int16 *AUD_P; /* the probe utterance: the whole recording */
@@ -70,6 +71,10 @@ load_audio(void)
     memcpy(AUD_P, all, n * 2);
     memcpy(AUD_A, all + 2000, N_A * 2);
     memcpy(AUD_B, all + 20000, N_B * 2);
+    AUD_QA = malloc(N_A * 2);
+    AUD_QB = malloc(N_B * 2);
+    memcpy(AUD_QA, all + 24000, N_A * 2);
+    memcpy(AUD_QB, all + 4000, N_B * 2);
     for (i = 0; i < N_A; i++)
         AUD_AF[i] = AUD_A[i] / 32768.0f;
 }
@@ -462,6 +467,31 @@ digest(decoder_t *d, char *buf, size_t n)
             break;
         }
     }
+    /* the second-pass alignment of this utterance: words and phones with start, duration, score */
+    {
+        alignment_t *al = decoder_alignment(d);
+        if (!al) {
+            if (o + 16 < n)
+                o += snprintf(buf + o, n - o, " align=none");
+        } else {
+            alignment_iter_t *wi, *pi;
+            if (o + 16 < n)
+                o += snprintf(buf + o, n - o, " align=");
+            for (wi = alignment_words(al); wi; wi = alignment_iter_next(wi)) {
+                int st, du;
+                int sc2 = alignment_iter_seg(wi, &st, &du);
+                if (o + 64 < n)
+                    o += snprintf(buf + o, n - o, "{%s %d+%d %d", alignment_iter_name(wi), st, du, sc2);
+                for (pi = alignment_iter_children(wi); pi; pi = alignment_iter_next(pi)) {
+                    sc2 = alignment_iter_seg(pi, &st, &du);
+                    if (o + 48 < n)
+                        o += snprintf(buf + o, n - o, " %s:%d+%d:%d", alignment_iter_name(pi), st, du, sc2);
+                }
+                if (o + 2 < n)
+                    o += snprintf(buf + o, n - o, "}");
+            }
+        }
+    }
 }
 
 /* streaming probe (channel normalisation reset first) and batch probe (no reset needed) */
@@ -478,6 +508,24 @@ probe(decoder_t *d, char *dstream, char *dbatch, size_t n)
     if (decoder_end_utt(d) < 0)
         return -8;
     digest(d, dbatch, n);
+    /* two more whole-utterance decodes whose LENGTHS equal those of the history's utterances (procA, procB) but whose
+     * content differs: anything cached per frame count shows here */
+    {
+        size_t l = strlen(dbatch);
+        if (decoder_start_utt(d) < 0 || decoder_process_int16(d, AUD_QA, N_A, 0, 1) < 0 || decoder_end_utt(d) < 0)
+            return -9;
+        if (l + 8 < n) {
+            l += snprintf(dbatch + l, n - l, " || QA: ");
+            digest(d, dbatch + l, n - l);
+        }
+        l = strlen(dbatch);
+        if (decoder_start_utt(d) < 0 || decoder_process_int16(d, AUD_QB, N_B, 0, 1) < 0 || decoder_end_utt(d) < 0)
+            return -10;
+        if (l + 8 < n) {
+            l += snprintf(dbatch + l, n - l, " || QB: ");
+            digest(d, dbatch + l, n - l);
+        }
+    }
     /* streaming mode with the channel normalisation state set to a fixed value */
     if (decoder_set_cmn(d, CMN_FIXED) < 0)
         return -2;
@@ -491,7 +539,7 @@ probe(decoder_t *d, char *dstream, char *dbatch, size_t n)
     return 0;
 }
 
-static char REF_STREAM[4096], REF_BATCH[4096];
+static char REF_STREAM[DIGN], REF_BATCH[DIGN];
 static size_t BASELINE_ALLOC;
 static int HAVE_BASELINE;
 
@@ -560,7 +608,7 @@ static int
 run_hist(const hist_t *h)
 {
     model_t m;
-    char cd[512], ds[4096], db[4096];
+    char cd[512], ds[DIGN], db[DIGN];
     int i, rc = 0, nontrivial = 0;
     long long v0 = mc_nviol;
     hist_desc(h, cd, sizeof cd);
@@ -638,7 +686,7 @@ run_hist(const hist_t *h)
             } else {
                 /* reference: a fresh decoder with the same dictionary additions */
                 decoder_t *f = make_decoder();
-                char fs[4096], fb[4096];
+                char fs[DIGN], fb[DIGN];
                 for (i = 0; i < m.nadded; i++)
                     decoder_add_word(f, m.added[i].word, m.added[i].phones, 1);
                 rc = probe(f, fs, fb, sizeof fs);
@@ -654,7 +702,7 @@ run_hist(const hist_t *h)
         D = NULL;
     }
     if (d2) {
-        char s2[4096], b2[4096];
+        char s2[DIGN], b2[DIGN];
         if ((step2 % 4) == 1 || (step2 % 4) == 2)
             decoder_end_utt(d2);
         rc = probe(d2, s2, b2, sizeof s2);
